@@ -37,7 +37,11 @@ func c11LoadKnown() {
 		return
 	}
 	c11KnownLoaded = true
-	f, err := os.Open("/verif/known_findings.txt")
+	path := "/verif/known_findings.txt"
+	if e := os.Getenv("C11_KNOWN"); e != "" {
+		path = e
+	}
+	f, err := os.Open(path)
 	if err != nil {
 		return
 	}
@@ -237,7 +241,16 @@ func checkHist(t *Toks) string {
 			add(op+".dup", "same-outpoint-twice")
 		}
 		if !cur.locktime && (first || prev.locktime) {
-			add(op+".locktime", fmt.Sprintf("got_%d_want_%d", p.Locktime(), specLocktime(p)))
+			shape := "unexpected"
+			to, ah := false, false
+			for _, in := range p.Inputs {
+				to = to || (in.RequiredTimeLocktime != 0 && in.RequiredHeightLocktime == 0)
+				ah = ah || in.RequiredHeightLocktime != 0
+			}
+			if to && ah && p.Locktime() < 500000000 {
+				shape = "height-returned-with-time-only-input"
+			}
+			add(op+".locktime", fmt.Sprintf("%s:got_%d_want_%d", shape, p.Locktime(), specLocktime(p)))
 		}
 		if !cur.reparse && (first || prev.reparse) {
 			add(op+".reparse", rtDetail)
@@ -266,7 +279,13 @@ func checkHist(t *Toks) string {
 			sort.Ints(idxs)
 			for _, i := range idxs {
 				if i >= len(p.Inputs) || soloInput(p.Inputs[i]) != before.finalized[i] {
-					add(op+".frozen", diffDetail(before.proj, v.projPset(p)))
+					d := "input-removed"
+					if i < len(p.Inputs) {
+						// what changed in that input
+						bi := strings.Split(strings.Split(before.proj, "|")[1], ";")[i]
+						d = diffDetail("g|"+bi+"||", "g|"+v.projInput(&p.Inputs[i])+"||")
+					}
+					add(op+".frozen", d)
 					break
 				}
 			}
